@@ -28,7 +28,7 @@ Local Notation prescan_loop := (prescan_loop is_word_char to_lower simple_fold c
 Variable mco : bool.
 Variable J : cstate -> Prop.
 Hypothesis J_auto : forall c, J c -> J (note_auto c).
-Hypothesis J_slot : forall c i, J c -> 0 <= i <= 2147483647 -> J (note_slot i c).
+Hypothesis J_slot : mco = false -> forall c i, J c -> 0 <= i <= 2147483647 -> J (note_slot i c).
 Hypothesis J_name : forall o s c c', J c -> note_name_pr mco o s c = POk c' -> J c'.
 
 Lemma prescan_named_gen st1 p3 st' q : J (cs_c st1) -> prescan_named mco st1 p3 = POk (st', q) -> J (cs_c st').
@@ -52,7 +52,7 @@ Proof.
     destruct mco eqn:Em.
     + destruct (note_name_pr true (cs_o st1) (itoa dec) (cs_c st1)) as [c'| | | |] eqn:N; cbn [pbind] in E; try discriminate.
       inversion E; subst. cbn. eapply J_name; [exact Hc | exact N].
-    + inversion E; subst. cbn. apply J_slot; [exact Hc | lia].
+    + inversion E; subst. cbn. apply J_slot; [first [exact Em | reflexivity | assumption] | exact Hc | lia].
   - destruct (scan_word is_word_char (ch2 :: p4)) as [nm q0].
     destruct (note_name_pr mco (cs_o st1) nm (cs_c st1)) as [c'| | | |] eqn:N; cbn [pbind] in E; try discriminate.
     inversion E; subst. cbn. eapply J_name; [exact Hc | exact N].
@@ -307,6 +307,19 @@ Proof.
   - apply capnumlist_cw. exact W.
 Qed.
 
+Lemma fill_ordered_keeps ecma js : forall l m l2 m2, fill_ordered ecma js l m = (l2, m2) ->
+  forall s v, aget s m = Some v -> aget s m2 = Some v.
+Proof.
+  induction js as [|j js IH]; intros l m l2 m2 H s v Hs; cbn [fill_ordered] in H; [inversion H; subst; exact Hs|].
+  destruct l as [|s0 l']; [inversion H; subst; exact Hs|].
+  destruct ecma.
+  - destruct (fill_ordered true js l' m) as [r m'] eqn:E. inversion H; subst. eapply IH; eassumption.
+  - set (s' := match s0 with [] => itoa j | _ => s0 end) in *.
+    destruct (fill_ordered false js l' (if amem s' m then m else aset s' j m)) as [r m'] eqn:E. inversion H; subst.
+    eapply IH; [exact E|]. destruct (amem s' m) eqn:A; [exact Hs|].
+    rewrite aget_aset_other; [exact Hs|]. intros ->. apply amem_false in A. congruence.
+Qed.
+
 Section Table.
 Variable is_word_char : Z -> bool.
 Variable to_lower : Z -> Z.
@@ -322,21 +335,25 @@ Lemma prescan_loop_cw mco fuel st p st' : cw (cs_c st) -> prescan_loop fuel mco 
 Proof.
   apply (prescan_loop_gen is_word_char to_lower simple_fold cat_in cat_name mco cw).
   - apply note_auto_cw.
-  - intros c i W Hi. apply note_slot_cw; [exact W | lia].
+  - intros _ c i W Hi. apply note_slot_cw; [exact W | lia].
   - intros o s c c'. apply note_name_pr_cw.
 Qed.
 
 Theorem count_captures_table mco o p tb : count_captures mco o p = POk tb ->
   tbl_ok tb /\
   exists stF, prescan_loop (S (length p)) mco (mkCS c_init o [] false) p = POk stF /\
-              incl (c_caps (cs_c stF)) (t_caps tb) /\ cw (cs_c stF).
+              incl (c_caps (cs_c stF)) (t_caps tb) /\ cw (cs_c stF) /\
+              (mco = true -> forall s v, aget s (names_of (cs_c stF)) = Some v ->
+                 exists m, t_capnames tb = Some m /\ aget s m = Some v).
 Proof.
   unfold Parser.count_captures. intros E.
   destruct (prescan_loop (S (length p)) mco (mkCS c_init o [] false) p) as [st| | | |] eqn:EL; cbn [pbind] in E; try discriminate.
   pose proof (prescan_loop_cw mco (S (length p)) (mkCS c_init o [] false) p st cw_init EL) as W.
   pose proof (prescan_loop_ok is_word_char to_lower simple_fold participates cat_in cat_name mco (S (length p)) (mkCS c_init o [] false) p (cinv_init mco) ltac:(lia)) as CI.
   rewrite EL in CI. set (c := cs_c st) in *.
-  assert (GOAL : tbl_ok tb /\ incl (c_caps c) (t_caps tb)); [|destruct GOAL as [G1 G2]; split; [exact G1 | exists st; auto]].
+  assert (GOAL : tbl_ok tb /\ incl (c_caps c) (t_caps tb) /\
+                 (mco = true -> forall s v, aget s (names_of c) = Some v -> exists m, t_capnames tb = Some m /\ aget s m = Some v));
+    [|destruct GOAL as [G1 [G2 G3]]; split; [exact G1 | exists st; auto]].
   destruct mco.
   - (* assignOrderedNameSlots: the key list is 0 .. autocap-1 *)
     destruct CI as [A N M D]. destruct (D eq_refl) as [D1 [D2 [D3 D4]]].
@@ -348,14 +365,19 @@ Proof.
     destruct (c_capnames c) as [m|] eqn:Em.
     + destruct (place_names (c_capnamelist c) None m (repeat [] (Z.to_nat (c_capcount c)))) as [l1| | |]; cbn [bind] in E; try discriminate.
       destruct (fill_ordered (useE o) (zrange (c_capcount c)) l1 m) as [l2 m2] eqn:Ef. inversion E; subst tb.
-      split; [|cbn; apply incl_refl]. apply cw_table; [exact W | symmetry; exact NL|].
+      split; [|split; [cbn; apply incl_refl|]].
+      2:{ intros _ s v Hs. exists m2. split; [reflexivity|]. eapply fill_ordered_keeps; [exact Ef|]. unfold names_of in Hs. rewrite Em in Hs. exact Hs. }
+      apply cw_table; [exact W | symmetry; exact NL|].
       intros _ s k Hk. destruct (fill_ordered_vals _ _ _ _ _ _ Ef s k Hk) as [H1|H1]; [|apply JS; exact H1].
       apply D3. assert (H : aget s (names_of c) = Some k) by (unfold names_of; rewrite Em; exact H1). specialize (D4 _ _ H). lia.
     + destruct (negb (useE o) && (c_capcount c =? c_captop c)).
-      { inversion E; subst tb. split; [|cbn; apply incl_refl]. apply cw_table; [exact W | symmetry; exact NL | auto]. }
+      { inversion E; subst tb. split; [|split; [cbn; apply incl_refl|]]; [apply cw_table; [exact W | symmetry; exact NL | auto]|].
+        intros _ s v Hs. unfold names_of in Hs. rewrite Em in Hs. discriminate. }
       destruct (place_names (c_capnamelist c) None [] (repeat [] (Z.to_nat (c_capcount c)))) as [l1| | |]; cbn [bind] in E; try discriminate.
       destruct (fill_ordered (useE o) (zrange (c_capcount c)) l1 []) as [l2 m2] eqn:Ef. inversion E; subst tb.
-      split; [|cbn; apply incl_refl]. apply cw_table; [exact W | symmetry; exact NL|].
+      split; [|split; [cbn; apply incl_refl|]].
+      2:{ intros _ s v Hs. unfold names_of in Hs. rewrite Em in Hs. discriminate. }
+      apply cw_table; [exact W | symmetry; exact NL|].
       intros _ s k Hk. destruct (fill_ordered_vals _ _ _ _ _ _ Ef s k Hk) as [H1|H1]; [discriminate | apply JS; exact H1].
   - (* assignNameSlots *)
     unfold of_res, assign_default in E.
@@ -374,8 +396,10 @@ Proof.
       - unfold capnumlist_of in En. destruct (c_capcount c1 <? c_captop c1); [|discriminate]. inversion En; subst l. exact Hv.
       - rewrite (cw_dense c1 W1 HT En). exact Hv. }
     assert (FIN : forall names lst, (c_captop c1 < maxint32 -> match names with Some m => forall s k, aget s m = Some k -> In k (c_caps c1) | None => True end) ->
-              tbl_ok (mkT (c_caps c1) (capnumlist_of c1) (c_captop c1) names lst) /\ incl (c_caps c) (t_caps (mkT (c_caps c1) (capnumlist_of c1) (c_captop c1) names lst))).
-    { intros names lst V. split; [apply cw_table; auto | exact I1]. }
+              tbl_ok (mkT (c_caps c1) (capnumlist_of c1) (c_captop c1) names lst) /\ incl (c_caps c) (t_caps (mkT (c_caps c1) (capnumlist_of c1) (c_captop c1) names lst)) /\
+              (false = true -> forall s v, aget s (names_of c) = Some v ->
+                 exists m, t_capnames (mkT (c_caps c1) (capnumlist_of c1) (c_captop c1) names lst) = Some m /\ aget s m = Some v)).
+    { intros names lst V. split; [apply cw_table; auto | split; [exact I1 | intros HH; discriminate]]. }
     destruct (c_capnames c1) as [m1|] eqn:Em1.
     + assert (V1' : forall s v, aget s m1 = Some v -> In v (c_caps c1)).
       { intros s v Hv. apply (V1 s v). unfold names_of. rewrite Em1. exact Hv. }
@@ -396,3 +420,113 @@ Proof.
 Qed.
 
 End Table.
+
+(* ---------------------------------------------------------------- ECMAScript: no group names in the fragment *)
+Section NoNames.
+Variable is_word_char : Z -> bool.
+Variable to_lower : Z -> Z.
+Variable simple_fold : Z -> Z.
+Variable cat_in : Z -> Z -> bool.
+Variable cat_name : list Z -> Z.
+
+Local Notation prescan_step := (prescan_step is_word_char to_lower simple_fold cat_in cat_name).
+Local Notation prescan_loop := (prescan_loop is_word_char to_lower simple_fold cat_in cat_name).
+Local Notation count_captures := (count_captures is_word_char to_lower simple_fold cat_in cat_name).
+
+(* the ECMAScript bit is set in the current option word and in every stacked one *)
+Definition Eall (cs : cst) : Prop := useE (cs_o cs) = true /\ Forall (fun o => useE o = true) (cs_os cs).
+
+(* no names, and the group numbers are exactly 0 .. autocap-1 *)
+Definition EN (c : cstate) : Prop :=
+  c_capnames c = None /\ c_capcount c = c_autocap c /\ c_captop c <= c_autocap c /\ (forall j, In j (c_caps c) -> j < c_autocap c).
+
+Lemma note_auto_EN c : EN c -> EN (note_auto c).
+Proof.
+  intros [N [C [T L]]]. unfold note_auto.
+  set (k := c_autocap c).
+  set (c1 := mkC (k + 1) (c_caps c) (c_capcount c) (c_captop c) (c_capnames c) (c_capnamelist c)).
+  destruct (note_slot_fields k c1) as [F1 [F2 F3]].
+  assert (Z : zmem k (c_caps c1) = false).
+  { destruct (zmem k (c_caps c1)) eqn:E; [|reflexivity]. apply zmem_In in E. apply L in E. subst k. lia. }
+  unfold EN. rewrite F1, F2. split; [exact N|].
+  split; [|split].
+  - unfold note_slot. rewrite Z. cbn. subst k. lia.
+  - unfold note_slot. rewrite Z. cbn. fold k. destruct (c_captop c <=? k) eqn:E; [destruct (k =? maxint32); lia | lia].
+  - intros j Hj. apply note_slot_caps in Hj. cbn. destruct Hj as [-> | Hj]; [lia | apply L in Hj; fold k in Hj; lia].
+Qed.
+
+Lemma prescan_step_E mco cs ch p1 cs' q : Eall cs -> EN (cs_c cs) ->
+  prescan_step mco cs ch p1 = POk (cs', q) -> Eall cs' /\ EN (cs_c cs').
+Proof.
+  intros [E1 E2] N H. unfold Parser.prescan_step in H.
+  assert (SAME : forall q0, POk (cs, q0) = POk (cs', q) -> Eall cs' /\ EN (cs_c cs')).
+  { intros q0 HH. inversion HH; subst. split; [split; assumption | exact N]. }
+  destruct (ch =? 92).
+  { destruct p1 as [|c p2]; [eapply SAME; exact H|].
+    match type of H with pbind ?a _ = _ => destruct a as [q0|e q0| | |] end; cbn [pbind] in H; try discriminate. eapply SAME; exact H. }
+  destruct (ch =? 35).
+  { destruct (useX (cs_o cs)); [|eapply SAME; exact H].
+    match type of H with pbind ?a _ = _ => destruct a as [q0|e q0| | |] end; cbn [pbind] in H; try discriminate. eapply SAME; exact H. }
+  destruct (ch =? 91).
+  { match type of H with pbind ?a _ = _ => destruct a as [q0|e q0| | |] end; cbn [pbind] in H; try discriminate. eapply SAME; exact H. }
+  destruct (ch =? 41).
+  { destruct (cs_os cs) as [|o' r] eqn:EO; [eapply SAME; exact H|]. inversion H; subst. cbn.
+    inversion E2; subst. split; [split; assumption | exact N]. }
+  destruct (ch =? 40); [|eapply SAME; exact H].
+  unfold Parser.prescan_open in H. cbv zeta in H. cbn [cs_c cs_o cs_os cs_ign] in H.
+  assert (PUSH : Forall (fun o => useE o = true) (cs_o cs :: cs_os cs)) by (constructor; assumption).
+  destruct (starts_qhash p1).
+  { destruct (ignore_err0 (scan_blank_full (cs_o cs) (ch :: p1))) as [q0|e q0| | |]; cbn [pbind] in H; try discriminate.
+    inversion H; subst. cbn. split; [split; assumption | exact N]. }
+  destruct (hd_is p1 63).
+  2:{ destruct (negb (useN (cs_o cs)) && negb (cs_ign cs)); inversion H; subst; cbn [cs_c cs_o cs_os]; (split; [split; assumption|]); [apply note_auto_EN; exact N | exact N]. }
+  destruct (longer (tl p1) 1 && (hd_is (tl p1) 60 || hd_is (tl p1) 39)).
+  { unfold Parser.prescan_named in H. destruct (tl (tl p1)) as [|ch2 p4]; [discriminate|]. cbn [cs_o] in H. rewrite E1 in H.
+    destruct ((ch2 =? 61) || (ch2 =? 33) || (ch2 =? 48)); [|discriminate]. inversion H; subst. cbn. split; [split; assumption | exact N]. }
+  destruct (useRE2 (cs_o cs) && longer (tl p1) 2 && hd_is (tl p1) 80 && nth_is 1 (tl p1) 60).
+  { unfold Parser.prescan_pyname in H. destruct (skipn 2 (tl p1)) as [|ch2 p4]; [discriminate|].
+    destruct (is_word_char ch2); [cbn [cs_o] in H; rewrite E1 in H; discriminate|]. inversion H; subst. cbn. split; [split; assumption | exact N]. }
+  destruct (scan_options_text (cs_o cs) (tl p1)) as [o2 q0] eqn:EO.
+  destruct (inline_options_keep_top_bits _ _ _ _ EO) as [_ [KE _]].
+  cbn [cs_c cs_os cs_o cs_ign] in H.
+  assert (E1' : useE o2 = true) by congruence.
+  destruct (hd_is q0 41); [inversion H; subst; cbn [cs_c cs_o cs_os]; split; [split; assumption | exact N]|].
+  destruct (hd_is q0 40); inversion H; subst; cbn [cs_c cs_o cs_os]; (split; [split; assumption | exact N]).
+Qed.
+
+Lemma prescan_loop_E mco fuel : forall cs p cs', Eall cs -> EN (cs_c cs) ->
+  prescan_loop fuel mco cs p = POk cs' -> EN (cs_c cs').
+Proof.
+  induction fuel as [|f IH]; intros cs p cs' E N H; cbn [Parser.prescan_loop] in H; [discriminate|].
+  destruct p as [|ch p1]; [inversion H; subst; exact N|].
+  destruct (prescan_step mco cs ch p1) as [[st1 q]|e q| | |] eqn:S; cbn [pbind] in H; try discriminate.
+  destruct (prescan_step_E mco cs ch p1 st1 q E N S) as [E' N']. eapply IH; eassumption.
+Qed.
+
+Lemma EN_init : EN c_init.
+Proof. unfold EN, c_init. cbn. split; [reflexivity|]. split; [reflexivity|]. split; [lia|]. intros j [<- | []]. lia. Qed.
+
+Lemma fill_ordered_ecma_map js : forall l m, snd (fill_ordered true js l m) = m.
+Proof.
+  induction js as [|j js IH]; intros l m; cbn [fill_ordered]; [reflexivity|].
+  destruct l as [|s l']; [reflexivity|]. specialize (IH l' m). destruct (fill_ordered true js l' m). cbn [snd] in *. exact IH.
+Qed.
+
+Theorem count_captures_nonames mco o p tb : useE o = true ->
+  count_captures mco o p = POk tb -> no_names tb = true.
+Proof.
+  intros HE E. unfold Parser.count_captures in E.
+  destruct (prescan_loop (S (length p)) mco (mkCS c_init o [] false) p) as [st| | | |] eqn:EL; cbn [pbind] in E; try discriminate.
+  pose proof (prescan_loop_E mco (S (length p)) (mkCS c_init o [] false) p st ltac:(split; [exact HE | constructor]) EN_init EL) as [N [C [T L]]].
+  destruct mco.
+  - unfold of_res, assign_ordered in E. rewrite N, HE in E. cbn [negb andb] in E.
+    destruct (place_names (c_capnamelist (cs_c st)) (capnumlist_of (cs_c st)) [] (repeat [] (Z.to_nat (c_capcount (cs_c st))))) as [l1| | |]; cbn [bind] in E; try discriminate.
+    pose proof (fill_ordered_ecma_map (match capnumlist_of (cs_c st) with Some l => l | None => zrange (c_capcount (cs_c st)) end) l1 []) as FM.
+    destruct (fill_ordered true (match capnumlist_of (cs_c st) with Some l => l | None => zrange (c_capcount (cs_c st)) end) l1 []) as [l2 m2].
+    cbn [snd] in FM. subst m2. inversion E; subst. reflexivity.
+  - unfold of_res, assign_default in E. rewrite N in E. cbv zeta in E. rewrite N in E.
+    unfold capnumlist_of in E. replace (c_capcount (cs_c st) <? c_captop (cs_c st)) with false in E by (symmetry; apply Z.ltb_ge; lia).
+    inversion E; subst. reflexivity.
+Qed.
+
+End NoNames.
